@@ -138,6 +138,7 @@ def install(ctx, repo, probes):
     ctx.target("sibling/repetitions", "sibling/start", "sibling/end",
                "sibling/interval", "sibling/interval-regrouped",
                "sibling/tiny-interval", "sibling/hash-collision",
+               "shift/fresh-twin",
                "twin/zone", "twin/representation", "twin/end-of-day",
                "twin/fraction-units",
                "twin/units", "roundtrip/fmt1", "roundtrip/fmt3",
@@ -176,6 +177,56 @@ def run_case(ctx, repo, case):
                 if (a == b) is not True:
                     ctx.violation("commute", "r+d != d+r for %s" % (
                         _rk(rec),))
+                # the shifted recurrence is a value like one built from
+                # scratch at the shifted anchor: equal, same hash, and its
+                # text reads back as itself
+                shift_s = R.dur_len(d)
+                fmt = rec._format_number
+                anchor = rec._end_point if fmt == 4 else rec._start_point
+                if shift_s.denominator == 1 and fmt in (3, 4) and \
+                        rec._duration is not None and \
+                        rec._repetitions != 1 and \
+                        R.tp_is_integral(anchor) and \
+                        anchor._hour_of_day != 24 and \
+                        anchor._second_of_minute is not None:
+                    ctx.ev("shift.fresh-twin")
+                    moved = repo.tp(gen.tp_from_instant(
+                        __import__("random").Random(1), mode,
+                        int(R.tp_instant(mode, anchor) + shift_s),
+                        rep=R.tp_rep(anchor),
+                        offset=(anchor._time_zone._hours,
+                                anchor._time_zone._minutes),
+                        allow_2400=False))
+                    kw = {"repetitions": rec._repetitions,
+                          "duration": rec._duration}
+                    kw["end_point" if fmt == 4 else "start_point"] = moved
+                    prob = None
+                    try:
+                        twin = repo.TimeRecurrence(**kw)
+                        if (a == twin) is not True or (twin == a) is not True:
+                            prob = "is unequal to"
+                        elif hash(a) != hash(twin):
+                            prob = "hashes differently from"
+                        else:
+                            try:
+                                text = str(a)
+                            except OverflowError:
+                                text = None   # (a year str() cannot spell)
+                            if text is not None and (
+                                    ctx.rparser.parse(text) == twin) \
+                                    is not True:
+                                prob = "does not read back from its text " \
+                                    "(%r) as" % text
+                    except ValueError:
+                        twin = None
+                    if prob:
+                        ctx.violation("shift.fresh-twin", "r + d for %s, "
+                                      "d=%r: %s %s the recurrence built at "
+                                      "the shifted anchor %s" % (
+                                          _rk(rec), case["shift"], _rk(a),
+                                          prob, _rk(twin)))
+                    elif twin is not None:
+                        ctx.cls("shift/fresh-twin")
             if any(case["shift"].values()):
                 ctx.nontrivial((dkey, "shift", repr(case["shift"])))
         elif op == "siblings":
@@ -549,6 +600,14 @@ def workload(ctx, repo):
         if v in (0, 1):
             case = {"op": "shift", "desc": desc,
                     "shift": gen.rand_exact_dur(rng, integral=True)}
+            if k % 25 == 5:
+                # a fraction of a minute / hour that is a whole number of
+                # seconds
+                case["shift"] = rng.choice(({"minutes": 0.5},
+                                            {"minutes": 2.25},
+                                            {"hours": 0.125},
+                                            {"minutes": -0.5},
+                                            {"hours": 1, "minutes": 0.75}))
             if k % 25 == 0:
                 # shifts longer than a 400-year cycle
                 case["shift"] = rng.choice((
